@@ -264,6 +264,11 @@ def run_case(case):
     def check_against(want, pred, what):
         if not want:
             return
+        if any(r not in rid_pos for r in want):
+            # the recording estimator finds the row ids in the column where the dataset's feature_columns put them:
+            # values that are no row ids mean the estimator was handed the columns in another order
+            res.violate("estimator_received_columns_in_unexpected_order", what, example=[int(r) for r in list(want)[:4]], **extra)
+            return
         idx = np.array([rid_pos[r] for r in want])
         w = np.array([want[r] for r in want], dtype=float)
         res.count("predictions_compared_with_training_time_scores")
